@@ -157,11 +157,16 @@ def run(ctx):
                 derived = [s_ for s_ in g.stores(pv) if s_.rhs is not None and s_.rhs.k == 'mem' and s_.rhs.n in ('list_prev', 'list_next') and s_.rhs.ch[0].s in newparams]
                 if pv not in newparams and not derived:
                     touch = True
+            # reading the head / tail of the list to link a new element against it is only meaningful under the lock:
+            # a value read before the lock can be stale when the lock is finally held
+            if ev.kind == 'load' and ev.e.k == 'mem' and ev.e.n in ('list_next', 'list_prev') and ('%s->ghost_element' % lst) in ev.e.s \
+                    and not name.endswith('is_empty') and not name.endswith('_is_empty'):
+                touch = True
             if touch:
                 must = ls.must_before(ev)
                 if must is None:
                     continue
-                rb.expect(bool(must), '%s:unlocked' % name, ev.loc, '%s: %s outside the list lock' % (name, ev.e.s if ev.e is not None else ev.lhs.s), note='%s: %s under lock' % (name, (ev.fn or ev.lhs.s)))
+                rb.expect(bool(must), '%s:unlocked' % name, ev.loc, '%s: %s outside the list lock' % (name, ev.e.s if ev.e is not None else ev.lhs.s), note='%s: %s under lock' % (name, (ev.fn or (ev.lhs.s if ev.lhs is not None else ev.e.s))))
     if nlocked < 12:
         raise AnalysisBroken('expected >= 12 locked list functions, found %d' % nlocked)
 
